@@ -112,6 +112,20 @@ def sut_frames(exc: BaseException):
     return ret
 
 
+def handle(data, pos=None):
+    """An open binary file object holding ``data`` whose position is wherever the previous user of the handle left it
+    (start, end, middle, one byte in - a pure function of the content, so that replay files stay valid).  The readers of
+    RP66V1, LIS and BIT files rewind the handle they are given (they are handed the object that identification just read)."""
+    import io
+    import zlib
+    f = io.BytesIO(data)
+    if pos is None:
+        k = zlib.crc32(bytes(data[:256])) % 5
+        pos = (0, 0, len(data), len(data) // 2, 1)[k]
+    f.seek(min(pos, len(data)))
+    return f
+
+
 def exc_sig(exc: BaseException) -> str:
     """Bucket key of an exception: type + innermost frame of the package under test (no line number)."""
     frames = sut_frames(exc)
